@@ -64,6 +64,14 @@ def op_universe():
         ops.append(("insert2", i, [("b", 2), ("b", 1), ("a", 1)]))
         ops.append(("insert2", i, {"b": 1}))
     ops.append(("insert2", "0", ("a", 1)))  # TypeError: index not an int
+    # refused part-way: a sequence of pairs with a malformed element that is
+    # not the first one (TypeError; the container must be left as it was)
+    for i in (0, 1, -1):
+        ops.append(("insert2", i, [("a", 1), ("b",)]))
+        ops.append(("insert2", i, [("b", 2), ("a", 1), 2]))
+        ops.append(("insert2", i, [("a", 2), ("b", 1, 0)]))
+    for name in ("insert_before", "insert_after"):
+        ops.append((name, "a", [("b", 1), ("a",)], 0))
     for name in ("insert_before", "insert_after"):
         for k in K:
             for inst in (0, 1, -1):
@@ -262,6 +270,9 @@ def random_histories(rec, hb, rng, classes, n_hist, pvl):
             arg = [pair() for _ in range(k)] if k != 1 else pair()
             if k == 2 and rng.random() < 0.3:
                 arg = {rng.choice(K): val()}
+            if k >= 2 and isinstance(arg, list) and rng.random() < 0.15:
+                # malformed element after good ones: refused as a whole
+                arg = arg + [rng.choice((("c",), 3, ("a", 1, 2)))]
             return ("insert2", idx, arg)
         if r < 0.46:
             name = rng.choice(("insert_before", "insert_after"))
